@@ -25,6 +25,7 @@ HELPERS = {
     "__symx_strformat__": core.symx_strformat,
     "__symx_issym__": core.symx_issym,
     "__symx_ite__": core.symx_ite,
+    "__symx_div__": core.symx_div,
 }
 
 
